@@ -349,7 +349,10 @@ def task_shape(shape):
         def ob(f, label):
             f = zb(f)
             f = z3.simplify(f)
-            if not (z3.is_true(f) or z3.is_false(f)): distinct.add((label, f.hash()))
+            if not (z3.is_true(f) or z3.is_false(f)):
+                distinct.add((label, f.hash()))
+                if len(samples) < 2 and samples and 'surface:' in label or len(samples) == 1 and 'node 1 x' in label:
+                    samples.append(dict(shape=tag, obligation=label, formula=str(f).replace('\n', ' ')[:300]))
             pending.append((f, label))
 
         def witness(m):
